@@ -155,7 +155,7 @@ func toEnumList(src val.EnumList, v interface{}) (val.EnumList, error) {
 		}
 		return l, nil
 	default:
-		if e, err := toEnum(src, v); err != nil {
+		if e, err := toEnum(src, v); err == nil {
 			return val.EnumList([]val.Enum{e}), nil
 		}
 	}
@@ -230,7 +230,12 @@ func toBitsList(bitDefintions []*meta.Bit, v interface{}) (val.BitsList, error) 
 }
 
 func toBitsValueHandler[V int | uint | int64 | float64](bitDefintions []*meta.Bit, v V) (val.Bits, error) {
-	return toBits(bitDefintions, uint64(v))
+	// exact or error: no negative or fractional bit masks
+	u, err := val.Conv(val.FmtUInt64, v)
+	if err != nil {
+		return val.Bits{}, err
+	}
+	return toBits(bitDefintions, u.Value().(uint64))
 }
 
 func toBits(bitDefintions []*meta.Bit, v interface{}) (val.Bits, error) {
